@@ -17,7 +17,8 @@ from harness.props import C13
 
 ID = "C18"
 PROPS_FILE = "Props/C18.v"
-COQ_IMPORTS = "From Coq Require Import String.\nFrom SA Require Import Model.HarnessC18.\nOpen Scope string_scope."
+COQ_IMPORTS = ("From Coq Require Import String.\nFrom SA Require Import Model.HarnessC18.\nFrom SA Require Model.FloatQuantile.\n"
+               "From Coq Require Import Floats.PrimFloat.\nOpen Scope string_scope.")
 GEN_AVAILABLE = set()
 CHUNK = 40
 RULE = ("DataFrames with 1-4 groups (>= 1 row per group, groups lacking a class, single group), group_columns a column name or "
